@@ -15,6 +15,10 @@ import sys
 import tempfile
 import time
 
+import os as _os_cov, sys as _sys_cov
+if _os_cov.environ.get("VERIF_COV_OUT"):
+    _sys_cov.path.insert(0, _os_cov.path.dirname(_os_cov.path.abspath(__file__)))
+    import cov_hook  # noqa: F401  (diagnostic line coverage, off by default)
 from joblib import Parallel, delayed
 
 # results go to the original stdout; whatever joblib prints (verbose > 0, also from worker processes) goes to stderr
